@@ -22,7 +22,7 @@ var allKinds = []string{
 
 func c15Cfg() *DeclCfg {
 	return &DeclCfg{
-		Kinds:   append(append([]string{}, allKinds...), "map[string]int", "map[string]string", "map[int]string", "map[string]string", "[]string"),
+		Kinds:   append(append([]string{}, allKinds...), "map[string]int", "map[string]string", "map[int]string", "map[string]string", "[]string", "uptr", "level", "ulist"),
 		MinOpts: 1, MaxOpts: 5, MaxGroups: 2, MaxSub: 1, MaxCmds: 3, MaxDepth: 2, Exec: true,
 		Env: true, Defaults: true, Required: true, Choices: true, Optional: true, Hidden: true, NoIni: true, IniName: true,
 		Base: true, Pos: true, Namespaces: true, Init: true, InitMulti: true, Descriptions: true, Aliases: true, ShortOnly: true, MultiByte: true, DottedCmds: true, DupTags: true, ManyAliases: true, CapCmds: true, BigGroup: true, CaseLongs: true,
